@@ -289,6 +289,14 @@ pub const fn align_offset<T>(current_offset: u32) -> u32 {
   (current_offset + (alignment - 1)) & !(alignment - 1)
 }
 
+/// [`align_offset`] for a prefix length: computed in `usize`, saturating, so that a reserved size near
+/// `u32::MAX` yields a prefix that no capacity can hold instead of wrapping around.
+#[inline]
+pub(crate) const fn align_prefix<T>(len: usize) -> usize {
+  let alignment = core::mem::align_of::<T>();
+  len.saturating_add(alignment - 1) & !(alignment - 1)
+}
+
 /// Like [`align_offset`], but `None` when the aligned offset does not fit in `u32`
 /// (an offset in the last bytes of a 4 GiB arena).
 #[inline]
